@@ -232,6 +232,42 @@ Theorem C18_lexical_error_after_prefix :
 Proof. exact RejectFacts.lexical_error_rejected. Qed.
 Print Assumptions C18_lexical_error_after_prefix.
 
+(* a non-test, an unknown name or no name at all at the first position of a test list / after `not`: reported at that token *)
+Theorem C18_inner_test_at_token :
+  forall T : tables,
+  twf_tables T = true ->
+  forall (text : bytes) (pre : list token) (tn tl : token) (more : list token) 
+    (t : token) (rest : list token) (L : list bytes) (prev : option bytes) 
+    (k : nat) (d : cmddef) (a : argdef) (dl : cmddef),
+  wf_prefix T (map strip_pos pre) L prev k ->
+  fst (lex text) = pre ++ tn :: tl :: more ++ t :: rest ->
+  t_kind tn = TIdentifier ->
+  get_command_instance T L (t_val tn) = inl d ->
+  d_type d = CControl ->
+  d_accept_children d = true ->
+  d_args d = [a] ->
+  is_t1 a = true ->
+  t_kind tl = TIdentifier ->
+  get_command_instance T L (t_val tl) = inl dl ->
+  d_type dl = CTest ->
+  iscomplete (new_frame dl (at_of a)) None = false ->
+  d_expected_first dl = Some [TLeftParen] /\
+  (exists lp : token, more = [lp] /\ t_kind lp = TLeftParen) \/
+  d_expected_first dl = Some [TIdentifier] /\ more = [] ->
+  not_comment (t_kind t) = true ->
+  match t_kind t with
+  | TIdentifier =>
+      match get_command_instance T L (t_val t) with
+      | inl d' =>
+          d_type d' <> CTest ->
+          parse T text = Reject (ENotTest (d_name d')) (t_pos t) (Datatypes.length (t_val t))
+      | inr e => parse T text = Reject e (t_pos t) (Datatypes.length (t_val t))
+      end
+  | _ => parse T text = Reject EExpected (t_pos t) (Datatypes.length (t_val t))
+  end.
+Proof. exact RejectFacts.inner_test_rejected. Qed.
+Print Assumptions C18_inner_test_at_token.
+
 (* a tag the test does not take / whose extension is not loaded, an ill-typed value in a test: reported at that token *)
 Theorem C18_test_argument_at_token :
   forall T : tables,
